@@ -589,6 +589,28 @@ func AfterFunc(ctx context.Context, f func()) (stop func() bool) {
 	}
 }
 
+// WaitUntil blocks the calling thread until pred() holds (user code waiting for
+// another goroutine, e.g. a Close method joining its background worker). Unlike
+// a parked watcher the waiter is NOT a daemon: if pred can never become true the
+// execution is a deadlock.
+func WaitUntil(op string, pred func() bool) {
+	s := cur
+	if s == nil || s.aborting {
+		for !pred() {
+			runtime.Gosched()
+		}
+		return
+	}
+	me := s.running
+	s.point(op, pred)
+	// whoever made pred true did so before now
+	for _, th := range s.threads {
+		if th != me {
+			me.vc.join(th.vc)
+		}
+	}
+}
+
 // WaitDoneOr is WaitDone that also wakes up when alt() becomes true.
 func WaitDoneOr(ctx context.Context, alt func() bool) {
 	s := cur
